@@ -84,20 +84,27 @@ def goal_qfrc_dense(spec, pre, post):
 
 
 def goal_qfrc_sparse(spec, pre, post):
+  """the row's contribution to every dof of its world (a wrapped negative column shows up in the last dof)"""
   w, e = spec["tid"][:2]
-  c = int(spec["env"]["col"])
   compact = bool(spec["env"]["compact"])
+  live = (not bool(pre["ctx_done_in"][w])) and int(pre["state_changed_count_in"][w]) != 0 and e < int(pre["nefc_in"][w])
   f = float(pre["efc_force_in"][w, e])
-  adr, nnz = int(pre["efc_J_rowadr_in"][w, e]), int(pre["efc_J_rownnz_in"][w, e])
-  want = 0.0
-  for i in range(nnz):
-    col = int(pre["efc_J_colind_in"][w, 0, adr + i])
-    if compact:
-      col = int(pre["dof_cdof_in"][w, col])
-    if col == c:
-      want += float(pre["efc_J_in"][w, 0, adr + i]) * f
-  got = float(post["qfrc_constraint_out"][w, c]) - float(pre["qfrc_constraint_out"][w, c])
-  return lib.approx(got, want), f"row ({w},{e}) force {f}: added to qfrc_constraint[{w},{c}] {got}; J[e,{c}]*force = {want}"
+  ncol = pre["qfrc_constraint_out"].shape[1]
+  want = np.zeros(ncol)
+  if live:
+    adr, nnz = int(pre["efc_J_rowadr_in"][w, e]), int(pre["efc_J_rownnz_in"][w, e])
+    for i in range(nnz):
+      col = int(pre["efc_J_colind_in"][w, 0, adr + i])
+      if compact:
+        col = int(pre["dof_cdof_in"][w, col])
+        if col < 0:
+          continue
+      want[col] += float(pre["efc_J_in"][w, 0, adr + i]) * f
+  got = np.asarray(post["qfrc_constraint_out"], dtype=float) - np.asarray(pre["qfrc_constraint_out"], dtype=float)
+  exp = np.zeros_like(got)
+  exp[w] = want
+  ok = bool(np.allclose(got, exp, rtol=1e-3, atol=1e-4))
+  return ok, f"row ({w},{e}) live {live} force {f}: added to qfrc_constraint {got.tolist()}; J[e,:]*force in world {w} = {want.tolist()}"
 
 
 def goal_unchanged_except(spec, pre, post):
@@ -282,7 +289,7 @@ def eval_replay(ctx, name, E, dim):
     from mujoco_warp._src import solver
     from mujoco_warp._src.types import vec5
 
-    mv = lambda x: float(kh.mval(model, x))
+    mv = lambda x: L.mvalf(model, x)
     jar, D, fr, mu = [mv(x) for x in E["jar"]], [mv(x) for x in E["D"]], [mv(x) for x in E["fr"]], mv(E["mu"])
     fr5 = (fr + [1.0] * 5)[:5]
     force = wp.zeros((1, dim), dtype=float)
@@ -416,14 +423,14 @@ def unit_qfrc_sparse(compact, U):
     loc = f"mujoco_warp._src.solver:_update_constraint_init_qfrc_constraint_sparse({compact})"
     ctx.encode(k, solver._zero_qfrc_constraint_sparse)
     ctx.bound(compact=compact, rownnz_max=U, note=f"non-zero loop unrolled {U} times (rownnz <= {U})")
-    kt = lib.kernel_thread(k, unroll=U, cap=U + 2, alias_inout=False)
+    kt = lib.kernel_thread(k, unroll=U, cap=U + 2, alias_inout=False, assume_bounds=False)
     w, e = kt.tid
     c = z3.Int("col")
     live = And(Not(kt.pre("ctx_done_in", w)), kt.pre("state_changed_count_in", w) != 0, e < kt.pre("nefc_in", w))
-    ctx.assume("row live: world not done, state_changed_count (or nefc) != 0, efcid < nefc; rownnz >= 0", "thread's own accesses in bounds (C17)")
+    ctx.assume("row live: world not done, state_changed_count (or nefc) != 0, efcid < nefc", "sparse layout invariants instead of assuming in-bounds accesses: per-world arrays have nworld rows, 0 <= rowadr, rownnz, rowadr+rownnz <= capacity, column indices in [0, nv)" + (", dof_cdof entries in [-1, ncdof)" if compact else ""))
     nnz, adr = kt.pre("efc_J_rownnz_in", w, e), kt.pre("efc_J_rowadr_in", w, e)
     f = kt.pre("efc_force_in", w, e)
-    sess = ctx.session(kt.bg + [nnz >= 0])
+    sess = ctx.session(kt.bg + L.sparse_layout_pre(kt, U, compact, "qfrc_constraint_out") + [cmp("<=", nnz, U)])
     ctx.reach(sess, "twin:live-row-with-nonzeros", And(live, nnz >= 2, f != 0))
     names = {"w": w, "e": e, "col": c, "rownnz": nnz, "rowadr": adr}
     rp = lib.make_replay(ctx, kt, loc, "row", "goal", goal="checks.c24:goal_qfrc_sparse", env={"col": c, "compact": compact, "randomize_floats": 2})
@@ -435,6 +442,7 @@ def unit_qfrc_sparse(compact, U):
           col = kt.pre("dof_cdof_in", w, col)
         want = arith("+", want, ite(col == c, arith("*", kt.pre("efc_J_in", w, 0, adr + i), f), 0.0))
       ctx.prove(sess, f"row-contribution==J[e,col]*force/rownnz={n}", cmp("==", kt.atomic_total("qfrc_constraint_out", w, c), want), And(live, c >= 0, nnz == n), names=names, replay=rp, desc=f"sparse qfrc kernel: the row's contribution to a dof differs from J[e,dof]*force ({n} non-zeros)")
+    L.prove_inrange(ctx, sess, kt, names, rp, guard=live, what="sparse qfrc kernel")
     ctx.prove(sess, "dead-row-adds-nothing", cmp("==", kt.atomic_total("qfrc_constraint_out", w, c), 0.0), Not(live), names=names, replay=rp, desc="sparse qfrc kernel: a row of a done/unchanged world or beyond nefc contributes")
     o = z3.Int("o")
     ctx.prove(sess, "adds-only-to-own-world", cmp("==", kt.atomic_total("qfrc_constraint_out", o, c), 0.0), o != w, names=names, replay=rp, desc="sparse qfrc kernel adds to another world")
